@@ -10,10 +10,10 @@ tvars == <<vars, tid, l>>
 Ev == Traces[tid].ev
 TInit == /\ tid \in 1..Len(Traces) /\ l = 1 /\ c = Traces[tid].c
          /\ spos = 0 /\ cache = <<>> /\ frozen = FALSE /\ data = <<>> /\ rpos = 0
-         /\ lcount = 0 /\ ph = "init" /\ ocache = <<>> /\ hist = <<>> /\ log = <<>>
+         /\ lcount = 0 /\ ph = "init" /\ ocache = <<>> /\ hist = <<>> /\ log = <<>> /\ opened = FALSE
 Same(e, x) == e.op = x.op /\ e.k = x.k /\ e.ids = x.ids
 Step == /\ l <= Len(Ev) /\ l' = l + 1 /\ tid' = tid
-        /\ (ReadFixed \/ ReadOvInit \/ ReadOvRun \/ ReadOvDead \/ ReadOvBroken \/ Rewind \/ RewindNoRec \/ Data)
+        /\ (ReadClosed \/ Open \/ ReadFixed \/ ReadOvInit \/ ReadOvRun \/ ReadOvDead \/ ReadOvBroken \/ Rewind \/ RewindNoRec \/ Data)
         /\ Same(Ev[l], log'[Len(log')])
 TSpec == TInit /\ [][Step]_tvars
 Mon == /\ (~C10 => TLCSet(100000 + tid, 1)) /\ (~(C19 /\ C19Replay) => TLCSet(200000 + tid, 1)) /\ TLCSet(tid, l)
